@@ -311,6 +311,10 @@ func TestScripts(t *testing.T) {
 			tr = runTunnelRT(t, line)
 		case strings.HasPrefix(line, "crt "):
 			tr = runCloseRT(t, line)
+		case strings.HasPrefix(line, "rcrt "):
+			tr = runReconnRT(t, line)
+		case strings.HasPrefix(line, "lrt "):
+			tr = runLostRT(t, line)
 		default:
 			tr = "bad-op"
 		}
